@@ -44,7 +44,7 @@ CHECKS = {
         text="TLC checks SidesDenoteTheSameProblem over all sequences of declarations (sources: absolute / relative, correlation 0, 1/2, 1; constraints: simple and matrix) in every admissible form for data of positive, mixed and negative sign. "
              "Each history is built twice for real -- scalar, vector, covariance, correlation + errors, absolute equivalents of relative sources, wrapper keywords, YAML shorthand (numbers, lists, percent strings, top-level keys, dict constraints) and explicit YAML, "
              "model as callable / library name / SymPy string / source text, fits built by class, generic Fit(), xy_fit / indexed_fit / hist_fit / unbinned_fit and YAML, parameters fixed (also at 0), limited (also at 0) and started through methods, wrapper keywords and YAML keys -- and total covariance, cost at three parameter points, constraint cost and do_fit results are compared pairwise and with the spec's normal form.",
-        note="Trusted: TLC, harness/adapters/forms.py. 3 data points, 2 parameters; tolerance 1e-12 on covariances, 1e-9 on costs, 1e-3 sigma on fit results."),
+        note="Trusted: TLC, harness/adapters/forms.py. 3 data points, 2 parameters; tolerance 1e-12 on covariances, 1e-9 on costs, 1e-2 sigma on fit results."),
     "C18": dict(
         category="exploration", design_ref="DESIGN.md 4.12, 5/C18",
         technique="TLA+ spec PlotView.tla (fit state versions, Plot object constructed at one version and drawn at a later one, wiring table artist -> observable per fit type / cost kind / panel) model-checked with TLC; TLC-generated histories of mutate / fit / make plot / draw(options) replayed on real fits rendered headless, every matplotlib artist compared with the fit's numbers",
